@@ -32,6 +32,8 @@ type aclCase struct {
 	Fill  int `json:"fill,omitempty"`
 	FillA int `json:"fill_a,omitempty"`
 	FillB int `json:"fill_b,omitempty"`
+	// OnlyB: only the target is padded (one insert run of Fill lines)
+	OnlyB bool `json:"only_b,omitempty"`
 	// SeqDev: the IOS device prints sequence numbers in front of its ACL entries (IOS-XE)
 	SeqDev bool `json:"seq_dev,omitempty"`
 }
@@ -243,7 +245,10 @@ func run(ctx *Ctx) *Result {
 		c := c0
 		ios := c.Backend == "ios"
 		t := newKeyTable()
-		if c.Fill > 0 {
+		if c.Fill > 0 && c.OnlyB {
+			c.B = padded(c.B, c.Fill, c.FillB, false)
+			res.Count(fmt.Sprintf("%s:insert-run:%d-lines", c.Backend, c.Fill))
+		} else if c.Fill > 0 {
 			c.A, c.B = padded(c.A, c.Fill, c.FillA, false), padded(c.B, c.Fill, c.FillB, true)
 			res.Count(fmt.Sprintf("%s:large-acl:%d-lines", c.Backend, c.Fill/1000*1000))
 		}
@@ -276,6 +281,13 @@ func run(ctx *Ctx) *Result {
 		devText, spocText := devConfig(c.Backend, c.A, c.SeqDev), config(c.Backend, c.B)
 		out, errOut, status, pan := runDrc(model(c.Backend), devText, spocText)
 		canon := c.Backend + "\n" + devText + "--\n" + spocText
+		if ios && c.OnlyB && c.Fill >= 10000 && pan == "" && status != 0 && strings.Contains(errOut, "Can't insert more than 9999 ACL lines at once") {
+			// documented limit of the IOS planner (numbering leaves room for 9999 lines between two entries): refused
+			// with a diagnostic, nothing sent
+			res.Eval(canon, false)
+			res.Count("ios:insert-run-limit-refused")
+			return
+		}
 		if pan != "" || status != 0 {
 			res.Eval(canon, false)
 			res.Count("drc-error")
@@ -447,6 +459,20 @@ func run(ctx *Ctx) *Result {
 					a, b = genMoveDownIntoMixedRun(r)
 				}
 				runCase(aclCase{Backend: be, A: a, B: b, Fill: sz, FillA: r.Intn(len(a) + 1), FillB: r.Intn(len(b) + 1)})
+			}
+		}
+	}
+	// one insert run at the limit of the IOS numbering scheme: 9999 new lines between two entries must work,
+	// 10000 must be refused (ASA has no such limit)
+	if prop == "C02" || prop == "C01" || prop == "C08" {
+		for _, sz := range []int{9999, 10000} {
+			for _, be := range backends {
+				r := ctx.Rng.Fork()
+				a, _ := genPair(r, be == "ios", 4)
+				if len(a) == 0 {
+					a = []absLine{{Act: "permit", Proto: "tcp", Src: 1, Port: 22}}
+				}
+				runCase(aclCase{Backend: be, A: a, B: append([]absLine{}, a...), Fill: sz, OnlyB: true, FillB: r.Intn(len(a) + 1)})
 			}
 		}
 	}
